@@ -152,6 +152,8 @@ def add_constraint(v, w, y):
 @inited
 def prove():
     try:
+        # qapsplit reads the equation file back from disk: make sure all of it is there
+        if qape is not None: qape.flush()
         qaplens,blklen,extlen,sigs = qapsplit.qapsplit()
 
         #print("qaplens", qaplens, "blklen", blklen, "extlen", extlen, "sigs", sigs)
